@@ -213,9 +213,9 @@ Proof.
   { destruct ok; [reflexivity|]. destruct (negb isnum); [reflexivity|].
     apply np_bind; [apply np_to_int|intros [[x fnum] y] _]. np. }
   intros i' _.
+  apply np_bind; [apply np_int_arg|intros j _].
   destruct (start_offset s i') as [m|] eqn:E; [|reflexivity].
   apply start_offset_range in E.
-  apply np_bind; [apply np_int_arg|intros j _].
   destruct (j <? 0); [reflexivity|].
   set (j' := if j >? blen s then blen s else rune_offset_clamp (Z.to_nat j) s 0).
   assert (Hj : j' <= blen s).
@@ -323,13 +323,15 @@ Proof.
   rewrite (gtb_true c 0) by lia. reflexivity.
 Qed.
 
-(* sliceStep() on an array: needs the array to be a Go slice (len <= MaxInt) and the step a Go int *)
+(* sliceStep() on an array: needs the array to be a Go slice (len <= MaxInt) and the step a
+   non-zero Go int (a zero step divides by zero) *)
 Lemma np_slice_step_arr a start stop step :
-  zlen a <= MaxInt -> MinInt <= step <= MaxInt ->
+  zlen a <= MaxInt -> MinInt <= step <= MaxInt -> step <> 0 ->
   nopanic (slice_step (VArr a) start stop step).
 Proof.
-  intros HL Hstep. pose proof (zlen_nonneg a) as H0. unfold slice_step.
+  intros HL Hstep Hnz. pose proof (zlen_nonneg a) as H0. unfold slice_step.
   destruct (norm_step (zlen a) start stop step) as [[i n]|] eqn:E; [|reflexivity].
+  rewrite (proj2 (Z.eqb_neq step 0) Hnz).
   assert (G : 0 <= n <= MaxInt /\ Forall (fun x => 0 <= x < zlen a) (prog (Z.to_nat n) i step)).
   { destruct (Z_lt_le_dec 0 step) as [Hp|Hn].
     - apply norm_step_pos_range in E; [|lia|lia]. destruct E as [Hi [c [Hc [Hic ->]]]].
@@ -341,31 +343,28 @@ Proof.
         split; [unfold MaxInt; lia|]. cbn [Z.to_nat Pos.to_nat Pos.iter_op Nat.add prog].
         repeat constructor; lia.
       + rewrite wrap64_id by (unfold MinInt, MaxInt in *; lia).
-        destruct (Z.eq_dec step 0) as [->|Hnz].
-        * cbn [Z.mul]. rewrite ceilq_zero by lia.
-          split; [unfold MaxInt; lia|]. cbn [Z.to_nat Pos.to_nat Pos.iter_op Nat.add prog].
-          repeat constructor; lia.
-        * pose proof (ceilq_spec c (step * -1) ltac:(lia) ltac:(lia)) as [[Q1 Q2] Q3].
-          split; [lia|]. apply prog_range. intros _. rewrite Z2Nat.id by lia. split; [lia|]. nia. }
+        pose proof (ceilq_spec c (step * -1) ltac:(lia) ltac:(lia)) as [[Q1 Q2] Q3].
+        split; [lia|]. apply prog_range. intros _. rewrite Z2Nat.id by lia. split; [lia|]. nia. }
   destruct G as [[G1 G2] G3].
   rewrite (ltb_false n 0), (gtb_false n MaxInt) by lia. cbn [orb].
   rewrite (pick_prog a VNull HL _ _ _ G3). reflexivity.
 Qed.
 
-Lemma np_slice_step_other v start stop step :
+Lemma np_slice_step_other v start stop step : step <> 0 ->
   match v with VArr _ => False | _ => True end -> nopanic (slice_step v start stop step).
 Proof.
-  destruct v; try contradiction; intros _; try reflexivity.
-  unfold slice_step. destruct (norm_step _ _ _ _) as [[i n]|]; [|reflexivity]. destruct (step >? 0); reflexivity.
+  intros Hnz. destruct v; try contradiction; intros _; try reflexivity.
+  unfold slice_step. destruct (norm_step _ _ _ _) as [[i n]|]; [|reflexivity].
+  rewrite (proj2 (Z.eqb_neq step 0) Hnz). destruct (step >? 0); reflexivity.
 Qed.
 
 (* what sliceStep needs from its operand *)
 Definition arr_fits (v : value) : Prop := match v with VArr a => zlen a <= MaxInt | _ => True end.
 
 Lemma np_slice_step v start stop step :
-  arr_fits v -> MinInt <= step <= MaxInt -> nopanic (slice_step v start stop step).
+  arr_fits v -> MinInt <= step <= MaxInt -> step <> 0 -> nopanic (slice_step v start stop step).
 Proof.
-  intros Hv Hs. destruct v; try (apply np_slice_step_other; exact I).
+  intros Hv Hs Hnz. destruct v; try (apply np_slice_step_other; [exact Hnz | exact I]).
   apply np_slice_step_arr; assumption.
 Qed.
 
@@ -520,7 +519,9 @@ Qed.
 (* ------------------------------------------------------------------ *)
 
 (* Static: what Go's types and the parser guarantee about a node.
-   - the step of a slice node is a Go int (the field has type int);
+   - the step of a slice node is a Go int (the field has type int) and is not zero
+     (parser.index rejects a zero step with EInvalidSliceStep; sliceStep() would
+     divide by it);
    - zip has at least one argument (functionVarArg). *)
 Fixpoint node_ok (n : node) : bool :=
   match n with
@@ -528,8 +529,8 @@ Fixpoint node_ok (n : node) : bool :=
   | NFlattenAndProjectCurrent a | NIndex a _ | NObjectValues a | NProjectArrayCurrent a
   | NProjectObjectCurrent a | NPruneArray a | NSelectArraySingleCurrent a
   | NSelectObjectSingleCurrent _ a | NSlice a _ _ => node_ok a
-  | NSliceStep a _ _ step => in_int step && node_ok a
-  | NSliceStepCurrent _ _ step => in_int step
+  | NSliceStep a _ _ step => in_int step && negb (step =? 0) && node_ok a
+  | NSliceStepCurrent _ _ step => in_int step && negb (step =? 0)
   | NCall2 _ a b | NCallBy _ a b | NMap a b | NBin _ a b | NAnd a b | NOr a b | NFilter a b
   | NFilterAndProjectCurrent a b | NFlattenAndProject a b | NPipe a b | NProjectArray a b
   | NProjectObject a b | NSelectArraySingle a b | NSelectObjectSingle a _ b => node_ok a && node_ok b
@@ -899,9 +900,632 @@ Proof.
   - (* NSelectObjectSingle *)
     bind_child. destruct (is_null x); [reflexivity|]. apply np_bind; [use_ih; assumption|intros; reflexivity].
   - (* NSliceStep *)
-    bind_child. apply np_slice_step; [assumption|].
+    bind_child. apply np_slice_step; [assumption| |apply Z.eqb_neq, negb_true_iff; assumption].
     unfold in_int in *. split_hyps. split; apply Z.leb_le; assumption.
   - (* NSliceStepCurrent *)
-    apply np_slice_step; [assumption|].
+    apply np_slice_step; [assumption| |apply Z.eqb_neq, negb_true_iff; assumption].
     unfold in_int in *. split_hyps. split; apply Z.leb_le; assumption.
 Qed.
+
+(* evaluator: no panic, under the two hypotheses explained above *)
+Theorem eval_no_panic : forall root n cur vars,
+  node_ok n = true -> sites root n cur vars -> is_panic (eval root n cur vars) = false.
+Proof. intros. apply eval_np; assumption. Qed.
+
+(* ---- why the hypotheses are there ---- *)
+
+(* zip() with no argument: the evaluator does make([]any, MaxInt).  The parser
+   never builds this node (functionVarArg parses at least one argument). *)
+Lemma eval_zip_no_args_refuted :
+  exists root n cur vars, is_panic (eval root n cur vars) = true.
+Proof. exists VNull, (NCallVar FZip []), VNull, []. reflexivity. Qed.
+
+(* a slice step that is not a Go int: an artefact of the field being a Z in
+   the model; no Go value corresponds to it *)
+Lemma eval_step_not_int_refuted :
+  exists root n cur vars, is_panic (eval root n cur vars) = true.
+Proof.
+  exists VNull, (NSliceStepCurrent 5 (-100) (-18446744073709551614)),
+    (VArr [VNull; VNull; VNull; VNull; VNull; VNull]), [].
+  vm_compute. reflexivity.
+Qed.
+
+(* mathematical lists longer than a Go slice can be: the model then reports
+   the make() guard of sliceStep / zip.  No Go execution corresponds to it. *)
+Lemma slice_step_oversize_refuted :
+  exists a, is_panic (slice_step (VArr a) 0 two63 1) = true.
+Proof.
+  exists (repeat VNull (Z.to_nat two63)). unfold slice_step.
+  replace (zlen (repeat VNull (Z.to_nat two63))) with two63
+    by (unfold zlen; rewrite repeat_length, Z2Nat.id; [reflexivity|unfold two63; lia]).
+  generalize (repeat VNull (Z.to_nat two63)). intros a. reflexivity.
+Qed.
+
+Lemma zip_oversize_refuted :
+  exists a, is_panic (eval VNull (NCallVar FZip [NCurrent]) (VArr a) []) = true.
+Proof.
+  exists (repeat VNull (Z.to_nat two63)). cbn [eval bind fold_left].
+  replace (zlen (repeat VNull (Z.to_nat two63))) with two63
+    by (unfold zlen; rewrite repeat_length, Z2Nat.id; [reflexivity|unfold two63; lia]).
+  reflexivity.
+Qed.
+
+(* a zero step: the Go code divides by zero in sliceStep() as soon as the clamped
+   range is not empty, and so does the model.  The parser rejects a zero step
+   (EInvalidSliceStep), which is what node_ok records, so this is not reachable
+   through Compile/Search. *)
+Lemma slice_step_zero_model_remark :
+  slice_step (VArr [VNull]) 0 (-5) 0 = Panic PDivZero.
+Proof. reflexivity. Qed.
+
+Lemma eval_step_zero_refuted :
+  exists root n cur vars, is_panic (eval root n cur vars) = true.
+Proof.
+  exists VNull, (NSliceStepCurrent 0 (-5) 0), (VArr [VNull]), []. vm_compute. reflexivity.
+Qed.
+
+(* ------------------------------------------------------------------ *)
+(* the parser                                                          *)
+(* ------------------------------------------------------------------ *)
+From JM Require Import Json.JsonText Model.Token Model.Lexer Model.Literals Model.Parser Model.Api.
+
+(* postconditions: the outcome is not a panic, and a value satisfies Q *)
+Definition post {A} (Q : A -> Prop) (o : outcome A) : Prop :=
+  match o with Ok a => Q a | Panic _ => False | _ => True end.
+
+Lemma post_bind {A B} (Q' : A -> Prop) (Q : B -> Prop) (o : outcome A) (f : A -> outcome B) :
+  post Q' o -> (forall a, Q' a -> post Q (f a)) -> post Q (bind o f).
+Proof. destruct o; cbn; auto. Qed.
+Lemma post_np {A} (Q : A -> Prop) o : post Q o -> nopanic o.
+Proof. destruct o; cbn; intros; try reflexivity; contradiction. Qed.
+Lemma post_imp {A} (Q Q' : A -> Prop) o : post Q o -> (forall a, Q a -> Q' a) -> post Q' o.
+Proof. destruct o; cbn; auto. Qed.
+
+Definition any {A} (_ : A) : Prop := True.
+
+Lemma pull_post l : post any (pull l).
+Proof. destruct l as [|[t|e|] r]; cbn; exact I. Qed.
+Lemma advance_post st : post any (advance st).
+Proof. unfold advance. eapply post_bind; [apply pull_post|]. intros [t r] _. exact I. Qed.
+Lemma advance2_post st : post any (advance2 st).
+Proof.
+  unfold advance2. eapply post_bind; [apply pull_post|]. intros [t r] _.
+  eapply post_bind; [apply pull_post|]. intros [t2 r2] _. exact I.
+Qed.
+
+Definition sel_tok (t : ttype) : bool :=
+  match t with TArrayWildcard | TDot | TFilter | TObjectWildcard | TOpenSqBrace => true | _ => false end.
+Definition opt_ok (o : option node) : Prop := match o with Some n => node_ok n = true | None => True end.
+Definition Qsome (r : option node * pst) : Prop :=
+  match fst r with Some n => node_ok n = true | None => False end.
+Definition Qnode (r : node * pst) : Prop := node_ok (fst r) = true.
+
+(* the invariant of the two mutually recursive entry points *)
+Definition RInv (rec : pcall -> pst -> outcome (option node * pst)) : Prop :=
+  (forall prec st, post Qsome (rec (CExpr prec) st)) /\
+  (forall n prec st, node_ok n = true -> post Qsome (rec (CCont (Some n) prec) st)) /\
+  (forall prec st, sel_tok (ct st) = true -> precedence (ct st) >? prec = true ->
+     post Qsome (rec (CCont None prec) st)).
+
+Lemma atoi_int s z : atoi s = Some z -> in_int z = true.
+Proof.
+  unfold atoi. destruct (match s with 45 :: r => (true, r) | _ => (false, s) end) as [neg d].
+  destruct (take_digits d 0 0) as [[v n] r]. destruct r; [|discriminate].
+  destruct (n =? 0); [discriminate|].
+  destruct (in_int (if neg then - v else v)) eqn:E; [|discriminate]. intros H; inversion H; subst. exact E.
+Qed.
+
+Lemma json_literal_post tok : post (fun n => node_ok n = true) (parse_json_literal tok).
+Proof.
+  unfold parse_json_literal. destruct (unescape_backticks (inner tok)); [exact I|].
+  destruct (json_parse _) as [x|]; [|exact I]. destruct x as [| | |n| | |]; cbn; try reflexivity; try exact I.
+  destruct n; cbn; try reflexivity; exact I.
+Qed.
+
+Lemma quoted_post tok : post any (parse_quoted_identifier tok).
+Proof. unfold parse_quoted_identifier. destruct (quoted_unescape _ _); exact I. Qed.
+
+(* ---- function table ---- *)
+Definition arity_ok (ap : argparser) (l : list node) : Prop :=
+  match ap with
+  | AP1 => length l = 1%nat
+  | AP1to2 => length l = 1%nat \/ length l = 2%nat
+  | AP2 | AP2Exp | AP2Map => length l = 2%nat
+  | AP2to3 => length l = 2%nat \/ length l = 3%nat
+  | AP2to4 => length l = 2%nat \/ length l = 3%nat \/ length l = 4%nat
+  | AP3to4 => length l = 3%nat \/ length l = 4%nat
+  | APVar => l <> []
+  end.
+Definition pair_ok (ap : argparser) (fb : fbuild) : bool :=
+  match ap, fb with
+  | AP1, B1 _ | AP1to2, B1or2 _ _ | AP2, B2 _ | AP2Exp, BBy _ | AP2Map, BMap
+  | AP2to3, B2or3 _ _ | AP2to4, B2to4 _ _ _ | AP3to4, B3or4 _ _ | APVar, BVar _ => true
+  | _, _ => false
+  end.
+
+Lemma table_pairs_ok : forallb (fun e => pair_ok (fst (snd e)) (snd (snd e))) function_table = true.
+Proof. reflexivity. Qed.
+
+Lemma assoc_in {A} (k : bytes) (m : list (bytes * A)) v : assoc k m = Some v -> exists k', In (k', v) m.
+Proof.
+  induction m as [|[k' v'] r IH]; cbn [assoc]; [discriminate|].
+  destruct (beqb k k'); [intros E; inversion E; subst; eexists; left; reflexivity|].
+  intros E. destruct (IH E) as [k'' H]. exists k''. right. exact H.
+Qed.
+
+Lemma table_lookup_ok name ap fb : assoc name function_table = Some (ap, fb) -> pair_ok ap fb = true.
+Proof.
+  intros E. apply assoc_in in E as [k H].
+  pose proof table_pairs_ok as T. rewrite forallb_forall in T. exact (T _ H).
+Qed.
+
+Lemma build_ok ap fb args :
+  pair_ok ap fb = true -> arity_ok ap args -> forallb node_ok args = true ->
+  exists n, build fb args = Some n /\ node_ok n = true.
+Proof.
+  intros P A F.
+  destruct ap, fb; try discriminate P; cbn [arity_ok] in A;
+    try (destruct args as [|a1 [|a2 [|a3 [|a4 [|a5 args]]]]]; cbn [length] in A;
+         try (exfalso; lia); cbn [build]; eexists; (split; [reflexivity|]);
+         cbn [node_ok forallb] in *; rewrite ?andb_true_iff in *; tauto).
+  (* APVar / BVar *)
+  cbn [build]. eexists; split; [reflexivity|]. cbn [node_ok]. rewrite F, andb_true_r.
+  destruct f; try reflexivity. destruct args; [contradiction|reflexivity].
+Qed.
+
+Lemma post_ok {A} (Q : A -> Prop) a : Q a -> post Q (Ok a).
+Proof. exact (fun H => H). Qed.
+
+Lemma forallb_assoc_set (k : bytes) (n : node) m :
+  node_ok n = true -> forallb (fun kv => node_ok (snd kv)) m = true ->
+  forallb (fun kv => node_ok (snd kv)) (assoc_set k n m) = true.
+Proof.
+  intros Hn. induction m as [|[k' v'] r IH]; cbn [assoc_set forallb snd]; intros H.
+  - rewrite Hn. reflexivity.
+  - apply andb_true_iff in H as [H1 H2]. destruct (beqb k k'); cbn [forallb snd].
+    + rewrite Hn, H2. reflexivity.
+    + rewrite H1, IH by assumption. reflexivity.
+Qed.
+
+Lemma forallb_snoc (l : list node) n :
+  forallb node_ok l = true -> node_ok n = true -> forallb node_ok (l ++ [n]) = true.
+Proof. intros H1 H2. rewrite forallb_app, H1. cbn. rewrite H2. reflexivity. Qed.
+
+Lemma mk_slice_ok child start stop step :
+  opt_ok child -> in_int step = true -> (step =? 0) = false ->
+  node_ok (mk_slice child start stop step) = true.
+Proof.
+  intros Hc Hs Hz. unfold mk_slice. destruct child as [c|]; cbn [opt_ok] in Hc;
+    destruct (step =? 1); cbn [node_ok]; rewrite ?Hs, ?Hz, ?Hc; reflexivity.
+Qed.
+
+Ltac okk :=
+  lazymatch goal with
+  | |- post _ (Ok _) => unfold post; unfold Qnode; cbv beta; cbn [fst]
+  | _ => fail "not an Ok"
+  end.
+Ltac adv :=
+  first [ eapply post_bind; [apply advance_post | intros ? _]
+        | eapply post_bind; [apply advance2_post | intros ? _] ].
+
+(* parser.index *)
+Lemma index_post child st : opt_ok child -> post (fun r => node_ok (fst (fst r)) = true) (index child st).
+Proof.
+  intros Hc. unfold index.
+  eapply post_bind with (Q' := fun r1 => match r1 with inl (n, _) => node_ok n = true | Datatypes.inr _ => True end).
+  { destruct (is (ct st) TIntegerLiteral).
+    - destruct (atoi (tval (curr st))) as [start|]; [|exact I].
+      destruct (is (nt st) TCloseSqBrace).
+      + adv. okk. destruct child as [c|]; [exact Hc|]. destruct (_ && _); reflexivity.
+      + destruct (is (nt st) TColon); [|exact I]. adv. exact I.
+    - destruct (is (ct st) TColon); [|exact I]. adv. exact I. }
+  intros [[n st']|[[have_start start] st1]] H1; [exact H1|].
+  eapply post_bind with (Q' := fun r2 => match r2 with inl (n, _) => node_ok n = true | Datatypes.inr _ => True end).
+  { destruct (is (ct st1) TIntegerLiteral).
+    - destruct (atoi (tval (curr st1))) as [stop|]; [|exact I].
+      destruct (is (nt st1) TCloseSqBrace).
+      + adv. okk. apply mk_slice_ok; [exact Hc|reflexivity|reflexivity].
+      + destruct (is (nt st1) TColon); [|exact I]. adv. exact I.
+    - destruct (is (ct st1) TCloseSqBrace).
+      + adv. okk. apply mk_slice_ok; [exact Hc|reflexivity|reflexivity].
+      + destruct (is (ct st1) TColon); [|exact I]. adv. exact I. }
+  intros [[n st']|[[have_stop stop] st2]] H2; [exact H2|].
+  destruct (is (ct st2) TIntegerLiteral).
+  - destruct (negb (is (nt st2) TCloseSqBrace)); [exact I|].
+    destruct (atoi (tval (curr st2))) as [step|] eqn:A; [|exact I].
+    destruct (step =? 0) eqn:Z0; [exact I|]. adv. okk. cbn [fst].
+    apply mk_slice_ok; [exact Hc| |exact Z0]. eapply atoi_int; eauto.
+  - destruct (is (ct st2) TCloseSqBrace); [|exact I]. adv. okk.
+    apply mk_slice_ok; [exact Hc|reflexivity|reflexivity].
+Qed.
+
+Section ParserCore.
+  Variable rec : pcall -> pst -> outcome (option node * pst).
+  Variable fuel' : nat.
+  Hypothesis Hrec : RInv rec.
+
+  Lemma expr_post prec st : post Qnode (expr rec prec st).
+  Proof.
+    unfold expr. eapply post_bind; [apply (proj1 Hrec)|].
+    intros [[n|] st'] H; unfold Qsome in H; cbn [fst] in H; [exact H|contradiction].
+  Qed.
+
+  Lemma projection_post prec st : post (fun r => opt_ok (fst r)) (projection rec prec st).
+  Proof.
+    unfold projection.
+    destruct (ct st) eqn:C; try exact I;
+      (destruct (_ >? prec) eqn:G; [|exact I]);
+      (eapply post_imp; [apply (proj2 (proj2 Hrec)); rewrite C; first [reflexivity|exact G]|]);
+      (intros [[n|] st'] H; unfold Qsome in H; cbn [fst] in *; [exact H|exact I]).
+  Qed.
+
+  Ltac ex := eapply post_bind; [apply expr_post | intros [? ?] ?; unfold Qnode in *; cbn [fst] in *; cbv beta iota].
+  Ltac pj := eapply post_bind; [apply projection_post | intros [[?|] ?] ?; cbn [fst opt_ok] in *; cbv beta iota].
+
+  Lemma filter_post st : post Qnode (filter rec st).
+  Proof.
+    unfold filter. ex. destruct (negb _); [exact I|]. adv. okk. assumption.
+  Qed.
+
+  Lemma select_array_loop_post : forall k child fields st,
+    opt_ok child -> forallb node_ok fields = true ->
+    post Qnode (select_array_loop rec k child fields st).
+  Proof.
+    induction k as [|k IH]; intros child fields st Hc Hf; cbn [select_array_loop]; [exact I|].
+    ex. destruct (ct p) eqn:C; try exact I.
+    - adv. destruct fields as [|f0 fr].
+      + destruct child as [c|]; okk; cbn [node_ok opt_ok] in *; rewrite ?Hc; cbn [andb]; assumption.
+      + assert (F : forallb node_ok ((f0 :: fr) ++ [n]) = true) by (apply forallb_snoc; assumption).
+        destruct child as [c|]; okk; cbn [node_ok opt_ok] in *; rewrite ?Hc; cbn [andb]; exact F.
+    - adv. apply IH; [exact Hc|apply forallb_snoc; assumption].
+  Qed.
+
+  Lemma select_array_post child st : opt_ok child -> post Qnode (select_array rec fuel' child st).
+  Proof. intros. apply select_array_loop_post; [assumption|reflexivity]. Qed.
+
+  Lemma select_object_loop_post : forall k child fields st,
+    opt_ok child -> forallb (fun kv => node_ok (snd kv)) fields = true ->
+    post Qnode (select_object_loop rec k child fields st).
+  Proof.
+    induction k as [|k IH]; intros child fields st Hc Hf; cbn [select_object_loop]; [exact I|].
+    eapply post_bind with (Q' := any).
+    { destruct (ct st); try exact I. apply quoted_post. }
+    intros key _. destruct (negb _); [exact I|]. adv. ex.
+    destruct (ct p) eqn:C; try exact I.
+    - adv. destruct fields as [|f0 fr].
+      + destruct child as [c|]; okk; cbn [node_ok opt_ok] in *; rewrite ?Hc; cbn [andb]; assumption.
+      + assert (F : forallb (fun kv => node_ok (snd kv)) (assoc_set key n (f0 :: fr)) = true)
+          by (apply forallb_assoc_set; assumption).
+        destruct child as [c|]; okk; cbn [node_ok opt_ok] in *; rewrite ?Hc; cbn [andb]; exact F.
+    - adv. apply IH; [exact Hc|apply forallb_assoc_set; assumption].
+  Qed.
+
+  Lemma select_object_post child st : opt_ok child -> post Qnode (select_object rec fuel' child st).
+  Proof. intros. apply select_object_loop_post; [assumption|reflexivity]. Qed.
+
+  Lemma let_loop_post : forall k vars st,
+    forallb (fun kv => node_ok (snd kv)) vars = true ->
+    post (fun r => forallb (fun kv => node_ok (snd kv)) (fst r) = true) (let_loop rec k vars st).
+  Proof.
+    induction k as [|k IH]; intros vars st Hf; cbn [let_loop]; [exact I|].
+    destruct (negb _); [exact I|]. destruct (negb _); [exact I|]. adv. ex.
+    destruct (is (ct p) TIn).
+    - adv. okk. cbn [fst]. apply forallb_assoc_set; assumption.
+    - destruct (negb _); [exact I|]. adv. apply IH. apply forallb_assoc_set; assumption.
+  Qed.
+
+  Lemma let_post st : post Qnode (let_ rec fuel' st).
+  Proof.
+    unfold let_. eapply post_bind; [apply let_loop_post; reflexivity|].
+    intros [vars st'] Hv. cbn [fst] in Hv. cbv beta iota. ex.
+    okk. unfold Qnode. cbn [fst node_ok]. rewrite Hv. rewrite andb_true_r. assumption.
+  Qed.
+
+  Lemma var_args_loop_post : forall k acc st,
+    forallb node_ok acc = true ->
+    post (fun r => forallb node_ok (fst r) = true /\ fst r <> []) (var_args_loop rec k acc st).
+  Proof.
+    induction k as [|k IH]; intros acc st Hf; cbn [var_args_loop]; [exact I|].
+    ex. destruct (is (ct p) TComma).
+    - adv. apply IH. apply forallb_snoc; assumption.
+    - destruct (is (ct p) TCloseParen); [|exact I]. adv. okk. cbn [fst].
+      split; [apply forallb_snoc; assumption|]. destruct acc; discriminate.
+  Qed.
+
+  Lemma check_not_close_post name st : post any (check_not_close name st).
+  Proof. unfold check_not_close. destruct (is _ _); exact I. Qed.
+  Lemma end_args_post name st : post any (end_args name st).
+  Proof. unfold end_args. destruct (is _ _); [exact I|]. destruct (negb _); [exact I|]. apply advance_post. Qed.
+  Lemma need_comma_post name st : post any (need_comma name st).
+  Proof. unfold need_comma. destruct (is _ _); [exact I|]. destruct (negb _); [exact I|]. apply advance_post. Qed.
+  Lemma opt_more_post st : post any (opt_more st).
+  Proof.
+    unfold opt_more. destruct (is _ _); [adv; exact I|]. destruct (negb _); [exact I|]. adv. exact I.
+  Qed.
+
+  Ltac ea := eapply post_bind; [apply end_args_post | intros ? _].
+  Ltac nc := eapply post_bind; [apply need_comma_post | intros ? _].
+  Ltac om := eapply post_bind; [apply opt_more_post | intros [[|] ?] _; cbv beta iota; cbn [negb]].
+  Ltac fin := okk; cbn [fst forallb arity_ok length]; rewrite ?andb_true_iff; auto 10.
+
+  Lemma parse_args_post ap name st :
+    post (fun r => forallb node_ok (fst r) = true /\ arity_ok ap (fst r)) (parse_args rec fuel' ap name st).
+  Proof.
+    unfold parse_args. eapply post_bind; [apply check_not_close_post|intros _ _].
+    destruct ap.
+    - ex. ea. fin.
+    - ex. om; [|fin]. ex. ea. fin.
+    - ex. nc. ex. ea. fin.
+    - ex. destruct (is _ _); [exact I|]. destruct (negb _); [exact I|]. destruct (negb _); [exact I|].
+      adv. ex. ea. fin.
+    - destruct (negb _); [exact I|]. adv. ex. nc. ex. ea. fin.
+    - ex. nc. ex. om; [|fin]. ex. ea. fin.
+    - ex. nc. ex. om; [|fin]. ex. om; [|fin]. ex. ea. fin.
+    - ex. nc. ex. nc. ex. om; [|fin]. ex. ea. fin.
+    - eapply post_imp; [apply var_args_loop_post; reflexivity|]. intros [l st'] [H1 H2]. cbn [fst] in *. auto.
+  Qed.
+
+  Lemma function_post st : post Qnode (function rec fuel' st).
+  Proof.
+    unfold function. adv.
+    destruct (assoc (tval (curr st)) function_table) as [[ap fb]|] eqn:T; [|exact I].
+    eapply post_bind; [apply parse_args_post|]. intros [args st'] [H1 H2]. cbn [fst] in *. cbv beta iota.
+    destruct (build_ok ap fb args (table_lookup_ok _ _ _ T) H2 H1) as [n [B N]]. rewrite B.
+    okk. exact N.
+  Qed.
+
+  Lemma wrap_slice_projection_post n project st :
+    node_ok n = true -> post Qnode (wrap_slice_projection rec n project st).
+  Proof.
+    intros Hn. unfold wrap_slice_projection. destruct project; [|okk; exact Hn].
+    pj; okk; unfold Qnode; cbn [fst node_ok]; rewrite Hn; [assumption|reflexivity].
+  Qed.
+End ParserCore.
+
+Section ParserCore2.
+  Variable rec : pcall -> pst -> outcome (option node * pst).
+  Variable fuel' : nat.
+  Hypothesis Hrec : RInv rec.
+
+  Ltac ex := eapply post_bind; [apply (expr_post rec Hrec) | intros [? ?] ?; unfold Qnode in *; cbn [fst] in *; cbv beta iota].
+  Ltac pj := eapply post_bind; [apply (projection_post rec Hrec) | intros [[?|] ?] ?; cbn [fst opt_ok] in *; cbv beta iota].
+  Ltac done_ok := okk; cbn [node_ok]; rewrite ?andb_true_iff; auto.
+
+  Lemma primary_post st : post Qnode (primary rec fuel' st).
+  Proof.
+    unfold primary. destruct (ct st) eqn:C; try exact I.
+    - (* TOpenBrace *) adv. apply select_object_post; [exact Hrec|exact I].
+    - (* TOpenParen *) adv. ex. destruct (negb _); [exact I|]. adv. done_ok.
+    - (* TOpenSqBrace *)
+      adv. destruct (_ || _).
+      + eapply post_bind; [apply (index_post None); exact I|]. intros [[n project] st'] Hn. cbn [fst] in Hn.
+        cbv beta iota. apply wrap_slice_projection_post; assumption.
+      + apply select_array_post; [exact Hrec|exact I].
+    - (* TAdd *) adv. ex. done_ok.
+    - (* TArrayWildcard *) adv. pj; done_ok.
+    - (* TAsterisk *) adv. pj; done_ok.
+    - (* TFilter *)
+      adv. eapply post_bind; [apply (filter_post rec Hrec)|]. intros [f st'] Hf. unfold Qnode in Hf. cbn [fst] in Hf.
+      cbv beta iota. pj; done_ok.
+    - (* TFlatten *) adv. pj; done_ok.
+    - (* TLet *) adv. apply let_post; exact Hrec.
+    - (* TNot *) adv. ex. done_ok.
+    - (* TSubtract *) adv. ex. done_ok.
+    - (* TCurrent *) adv. done_ok.
+    - (* TJSONLiteral *)
+      eapply post_bind; [apply json_literal_post|]. intros n Hn. adv. done_ok.
+    - (* TQuotedIdentifier *)
+      eapply post_bind; [apply quoted_post|]. intros v _. adv. done_ok.
+    - (* TRoot *) adv. done_ok.
+    - (* TUnquotedIdentifier *)
+      destruct (is (nt st) TOpenParen); [apply function_post; exact Hrec|]. adv. done_ok.
+    - (* TStringLiteral *) adv. okk. reflexivity.
+    - (* TVariable *) adv. done_ok.
+  Qed.
+End ParserCore2.
+
+Section ParserCore3.
+  Variable rec : pcall -> pst -> outcome (option node * pst).
+  Variable fuel' : nat.
+  Hypothesis Hrec : RInv rec.
+
+  Ltac ex := eapply post_bind; [apply (expr_post rec Hrec) | intros [? ?] ?; unfold Qnode in *; cbn [fst] in *; cbv beta iota].
+  Ltac pj := eapply post_bind; [apply (projection_post rec Hrec) | intros [[?|] ?] ?; cbn [fst opt_ok] in *; cbv beta iota].
+  Ltac done_ok := okk; cbn [node_ok opt_ok] in *; rewrite ?andb_true_iff; auto.
+
+  Definition Qstep (st : pst) (r : option (node * pst)) : Prop :=
+    match r with Some (n', _) => node_ok n' = true | None => sel_tok (ct st) = false end.
+
+  Lemma cont_step_post node newPrec st :
+    opt_ok node -> (node = None -> sel_tok (ct st) = true) ->
+    post (Qstep st) (cont_step rec fuel' node newPrec st).
+  Proof.
+    intros Hn Hsel. unfold cont_step, Qstep. destruct (ct st) eqn:C; cbn [bin_of].
+    all: try solve [okk; reflexivity].
+    all: try solve [adv; ex; destruct node as [l|]; [done_ok|discriminate (Hsel eq_refl)]].
+    all: try solve [adv; pj; destruct node as [l|]; done_ok].
+    - (* TOpenSqBrace *)
+      adv. eapply post_bind; [apply (index_post node); exact Hn|]. intros [[n project] st'] Hi. cbn [fst] in Hi.
+      cbv beta iota. eapply post_bind; [apply wrap_slice_projection_post; assumption|].
+      intros [n' st''] Hw. exact Hw.
+    - (* TDot *)
+      assert (Hc : opt_ok (Some match node with Some n => n | None => NCurrent end))
+        by (destruct node; [exact Hn|reflexivity]).
+      destruct (nt st); try exact I.
+      + adv. eapply post_bind; [apply select_object_post; [exact Hrec|exact Hc]|]. intros [n' st'] Hw. exact Hw.
+      + adv. eapply post_bind; [apply select_array_post; [exact Hrec|exact Hc]|]. intros [n' st'] Hw. exact Hw.
+      + adv. okk. cbn [node_ok]. cbn [opt_ok] in Hc. rewrite Hc. reflexivity.
+      + adv. ex. destruct node as [l|]; done_ok.
+      + adv. ex. destruct node as [l|]; done_ok.
+    - (* TFilter *)
+      adv. eapply post_bind; [apply (filter_post rec Hrec)|]. intros [f st'] Hf. unfold Qnode in Hf. cbn [fst] in Hf.
+      cbv beta iota. pj; destruct node as [l|]; done_ok.
+  Qed.
+
+  Lemma run_body_inv : RInv (run_body rec fuel').
+  Proof.
+    destruct Hrec as [R1 [R2 R3]]. split; [|split].
+    - intros prec st. cbn [run_body].
+      eapply post_bind; [apply primary_post; exact Hrec|]. intros [n st'] Hn. apply R2. exact Hn.
+    - intros n prec st Hn. cbn [run_body]. cbv zeta.
+      destruct (_ >? prec); [|exact Hn].
+      eapply post_bind; [apply (cont_step_post (Some n)); [exact Hn|discriminate]|].
+      intros [[n' st']|] H; [apply R2; exact H|exact Hn].
+    - intros prec st Hs Hp. cbn [run_body]. cbv zeta. rewrite Hp.
+      eapply post_bind; [apply (cont_step_post None); [exact I|intros _; exact Hs]|].
+      intros [[n' st']|] H; [apply R2; exact H|]. unfold Qstep in H. congruence.
+  Qed.
+End ParserCore3.
+
+Lemma run_inv : forall fuel, RInv (run fuel).
+Proof.
+  induction fuel as [|f IH].
+  - split; [|split]; intros; exact I.
+  - cbn [run]. apply run_body_inv. exact IH.
+Qed.
+
+Lemma parse_items_post fuel items : post (fun n => node_ok n = true) (parse_items fuel items).
+Proof.
+  unfold parse_items. eapply post_bind; [apply pull_post|]. intros [t1 r1] _.
+  eapply post_bind; [apply pull_post|]. intros [t2 r2] _. cbv zeta.
+  eapply post_bind; [apply (proj1 (run_inv fuel))|].
+  intros [[n|] st'] H; unfold Qsome in H; cbn [fst] in H; [|contradiction].
+  destruct (negb _); [exact I|exact H].
+Qed.
+
+Lemma parse_post s : post (fun n => node_ok n = true) (parse s).
+Proof. apply parse_items_post. Qed.
+
+(* parser: no byte string makes it panic *)
+Theorem parse_no_panic : forall s, is_panic (parse s) = false.
+Proof. intros s. exact (post_np _ _ (parse_post s)). Qed.
+
+(* and its output satisfies the static hypothesis of the evaluator theorem *)
+Theorem parse_node_ok : forall s n, parse s = Ok n -> node_ok n = true.
+Proof. intros s n E. pose proof (parse_post s) as H. rewrite E in H. exact H. Qed.
+
+(* ------------------------------------------------------------------ *)
+(* the public API                                                      *)
+(* ------------------------------------------------------------------ *)
+
+Theorem compile_no_panic : forall expr, compile_result expr <> RPanic.
+Proof.
+  intros expr. unfold compile_result, lift_parse. pose proof (parse_no_panic expr) as H.
+  destruct (parse expr); try discriminate; cbn in H; discriminate.
+Qed.
+
+Theorem expression_search_no_panic : forall n data,
+  node_ok n = true -> sites data n data [] -> expression_search n data <> RPanic.
+Proof.
+  intros n data Hn Hs. unfold expression_search, lift_eval, evaluate.
+  pose proof (eval_no_panic data n data [] Hn Hs) as H.
+  destruct (eval data n data []); try discriminate; cbn in H; discriminate.
+Qed.
+
+Theorem search_no_panic : forall expr data,
+  (forall n, parse expr = Ok n -> sites data n data []) -> search expr data <> RPanic.
+Proof.
+  intros expr data Hs. unfold search, lift_parse. pose proof (parse_no_panic expr) as H.
+  destruct (parse expr) as [n| | | |] eqn:E; try discriminate; try (cbn in H; discriminate).
+  apply expression_search_no_panic; [eapply parse_node_ok; exact E|apply Hs; reflexivity].
+Qed.
+
+(* ------------------------------------------------------------------ *)
+(* a fragment where the length hypothesis is vacuous: expressions      *)
+(* without a stepped slice and without zip                             *)
+(* ------------------------------------------------------------------ *)
+
+Fixpoint plain (n : node) : bool :=
+  match n with
+  | NCall1 _ a | NNot a | NNegate a | NAssertNumber a | NFilterCurrent a | NFlatten a
+  | NFlattenAndProjectCurrent a | NIndex a _ | NObjectValues a | NProjectArrayCurrent a
+  | NProjectObjectCurrent a | NPruneArray a | NSelectArraySingleCurrent a
+  | NSelectObjectSingleCurrent _ a | NSlice a _ _ => plain a
+  | NSliceStep _ _ _ _ | NSliceStepCurrent _ _ _ => false
+  | NCall2 _ a b | NCallBy _ a b | NMap a b | NBin _ a b | NAnd a b | NOr a b | NFilter a b
+  | NFilterAndProjectCurrent a b | NFlattenAndProject a b | NPipe a b | NProjectArray a b
+  | NProjectObject a b | NSelectArraySingle a b | NSelectObjectSingle a _ b => plain a && plain b
+  | NCall3 _ a b c | NFilterAndProject a b c => plain a && plain b && plain c
+  | NCall4 _ a b c d => plain a && plain b && plain c && plain d
+  | NCallVar f args => negb (match f with FZip => true | _ => false end) && forallb plain args
+  | NSelectArrayCurrent args => forallb plain args
+  | NSelectArray c fields => plain c && forallb plain fields
+  | NDefine vars child => plain child && forallb (fun kv => plain (snd kv)) vars
+  | NSelectObject c fields => plain c && forallb (fun kv => plain (snd kv)) fields
+  | NSelectObjectCurrent fields => forallb (fun kv => plain (snd kv)) fields
+  | _ => true
+  end.
+
+Lemma on_ok_intro {A} (o : outcome A) (P : A -> Prop) : (forall a, P a) -> on_ok o P.
+Proof. destruct o; cbn; auto. Qed.
+
+Definition PLP (root : value) (c : node) : Prop :=
+  plain c = true -> node_ok c = true /\ forall cur vars, sites root c cur vars.
+
+Lemma plain_nodes root (l : list node) :
+  Forall (PLP root) l -> forallb plain l = true ->
+  forallb node_ok l = true /\ forall x vars, allP (fun a => sites root a x vars) l.
+Proof.
+  induction l as [|a r IH]; cbn [forallb allP]; [auto|]. intros F Hb.
+  apply Forall_cons_iff in F as [F1 F2]. apply andb_true_iff in Hb as [B1 B2].
+  destruct (F1 B1) as [N1 S1]. destruct (IH F2 B2) as [N2 S2]. rewrite N1, N2. auto.
+Qed.
+
+Lemma plain_knodes root (l : list (bytes * node)) :
+  Forall (PLP root) (map snd l) -> forallb (fun kv => plain (snd kv)) l = true ->
+  forallb (fun kv => node_ok (snd kv)) l = true /\
+  forall x vars, allP (fun kv => let '(_, f) := kv in sites root f x vars) l.
+Proof.
+  induction l as [|[k a] r IH]; cbn [forallb allP map snd]; [auto|]. intros F Hb.
+  apply Forall_cons_iff in F as [F1 F2]. apply andb_true_iff in Hb as [B1 B2].
+  destruct (F1 B1) as [N1 S1]. destruct (IH F2 B2) as [N2 S2]. rewrite N1, N2. auto.
+Qed.
+
+Ltac plain_hyps :=
+  repeat match goal with
+  | H : _ && _ = true |- _ => apply andb_true_iff in H; destruct H
+  | H : Forall _ (_ :: _) |- _ => apply Forall_cons_iff in H; destruct H
+  | H : Forall _ [] |- _ => clear H
+  | H : PLP _ ?a, P : plain ?a = true |- _ => destruct (H P); clear H
+  | H : Forall _ ?l, P : forallb plain ?l = true |- _ => destruct (plain_nodes _ _ H P); clear H
+  | H : Forall _ (map snd ?l), P : forallb _ ?l = true |- _ => destruct (plain_knodes _ _ H P); clear H
+  end.
+
+Ltac sites_auto :=
+  repeat match goal with
+  | |- _ /\ _ => split
+  | |- True => exact I
+  | |- on_ok _ _ => apply on_ok_intro; intros
+  | |- each _ _ => intros ? ?
+  | |- if ?c then _ else _ => destruct c
+  | |- match ?x with _ => _ end => destruct x
+  | |- _ => solve [auto]
+  end.
+
+Lemma plain_ok root : forall n, PLP root n.
+Proof.
+  induction n as [n IH] using node_ind_children. intros Hp.
+  destruct n; cbn [children] in IH; cbn [plain] in Hp; try discriminate Hp;
+    try match goal with f : fnvar |- _ => destruct f; try discriminate Hp end; plain_hyps;
+    (split; [cbn [node_ok]; rewrite ?andb_true_iff; auto 10|intros cur0 vars1; cbn [sites]; sites_auto]).
+Qed.
+
+(* without stepped slices and zip, no hypothesis on lengths is needed *)
+Corollary eval_no_panic_plain : forall root n cur vars,
+  plain n = true -> is_panic (eval root n cur vars) = false.
+Proof. intros root n cur vars Hp. destruct (plain_ok root n Hp) as [H1 H2]. apply eval_no_panic; auto. Qed.
+
+Corollary search_no_panic_plain : forall expr data,
+  (forall n, parse expr = Ok n -> plain n = true) -> search expr data <> RPanic.
+Proof.
+  intros expr data Hp. apply search_no_panic. intros n E.
+  destruct (plain_ok data n (Hp n E)) as [_ H]. apply H.
+Qed.
+
+Print Assumptions search_no_panic.
+Print Assumptions expression_search_no_panic.
+Print Assumptions compile_no_panic.
+Print Assumptions parse_node_ok.
+Print Assumptions eval_no_panic_plain.
+Print Assumptions eval_no_panic.
+Print Assumptions parse_no_panic.
